@@ -87,7 +87,10 @@ impl Walk for Metadata {
                 }
                 KeyLookup::Homogeneous(len) => {
                     debug_assert_eq!(children.len(), 1);
-                    (len.ilog10() as usize + 1, len.get())
+                    (
+                        (len.get() - 1).checked_ilog10().unwrap_or_default() as usize + 1,
+                        len.get(),
+                    )
                 }
             };
             max_depth = max_depth.max(1 + child.max_depth);
